@@ -3,6 +3,7 @@ package c19
 import (
 	"fmt"
 	"sort"
+	"strconv"
 
 	"verif/harness/pbt"
 )
@@ -496,16 +497,46 @@ func accept(c Case, h []event, final bool) *result {
 			}
 			maybeLive = map[string]bool{}
 			closeExpect(i, "connection_terminate", 1000, false, false)
-		case semUnknown:
-			res.label("unknown-type")
-			if tws {
-				closeExpect(i, "a message of unknown type", 4400, true, false)
+		case semUnknown, semSrvType:
+			// A message type the server does not accept from a client - one the protocol does
+			// not define, or one only the server may send - is an invalid message.
+			// graphql-transport-ws: close 4400 in any connection state (protocol document:
+			// "receiving a message of a type or format which is not specified in this document
+			// will result in an immediate socket closure with 4400"). graphql-ws: pinned from
+			// the unchanged tree (protocol_graphql_ws.go, Handle, default branch): exactly one
+			// connection_error carrying "unexpected message type: <type>", the connection stays
+			// open and nothing else happens (live operations are not disturbed).
+			typ := wireType(wire(proto, i, m))
+			what := fmt.Sprintf("a message of unknown type %q", typ)
+			if s == semSrvType {
+				what = fmt.Sprintf("a client message of the server-only type %q", typ)
+				res.label("server-only-type")
+				res.label("server-only-type:" + typ)
+				if tws && inited || !tws && res.acked {
+					res.label("server-only-type:after-init")
+				} else {
+					res.label("server-only-type:before-init")
+				}
+				if _, shape := srvType(proto, m.V); shape > 0 && liveSpec(m.ID) != nil {
+					res.label("server-only-type:id-of-live-operation")
+				}
 			} else {
-				closeExpect(i, "a message of unknown type", 0, false, true)
+				res.label("unknown-type")
+			}
+			if tws {
+				closeExpect(i, what, 4400, true, false)
+			} else {
+				closeExpect(i, what, 0, false, false)
+				want := strconv.Quote("unexpected message type: " + typ)
+				n := 0
 				for _, e := range f.sync {
-					if e.K == evW && e.Type == "connection_error" {
+					if e.K == evW && e.Type == "connection_error" && e.Payload == want {
 						connErrOK[e.Seq] = true
+						n++
 					}
+				}
+				if _, closedNow := syncHasClose(i); n != 1 && !closedNow && (final || f.syncEnd <= lastSeq) {
+					bad(f.rseq, "", "%s (message #%d) must be answered by exactly one connection_error %s (graphql-ws, pinned behaviour), got %d", what, i, want, n)
 				}
 			}
 		case semNonJSON:
